@@ -324,6 +324,21 @@ func (r *Request) call(handlers Handlers, pkt requestPacket, alloc *allocator, o
 	}
 }
 
+// serves reports whether pkt is a request that a handle opened with r.Method answers:
+// a file opened for reading serves no WRITE, one opened for writing no READ,
+// and only a directory handle serves READDIR.
+func (r *Request) serves(pkt requestPacket) bool {
+	switch pkt.(type) {
+	case *sshFxpReadPacket:
+		return r.Method == "Get" || r.Method == "Open"
+	case *sshFxpWritePacket:
+		return r.Method == "Put" || r.Method == "Open"
+	case *sshFxpReaddirPacket:
+		return r.Method == "List"
+	}
+	return true
+}
+
 // Additional initialization for Open packets
 func (r *Request) open(h Handlers, pkt requestPacket) responsePacket {
 	flags := r.Pflags()
